@@ -33,18 +33,30 @@ Definition outcome_eqb (a b : outcome) : bool :=
    the model's in_finding, so that no other input escapes the comparison. *)
 (* output / backends / acc: the endpoint's output_encoding, the encodings of its backends and
    the request's Accept header: i_render i must be what the model of getRender selects *)
-Inductive case := CCase (flagged : bool) (output : string) (backends : list string) (acc : accept)
-                        (i : input) (observed : outcome).
+Inductive case :=
+| CCase (flagged : bool) (output : string) (backends : list string) (acc : accept)
+        (i : input) (observed : outcome)
+(* a process whose identification value comes from the build (`build`) and in which a gin engine
+   was (hide = true) or was not made by NewEngine with hide_version_header: i_ver i must be the
+   model's version_value *)
+| CVersion (build : string) (hide : bool) (flagged : bool) (output : string) (backends : list string)
+           (acc : accept) (i : input) (observed : outcome).
+
+Definition check_main (flagged : bool) (output : string) (backends : list string) (acc : accept)
+                      (i : input) (obs : outcome) : bool * bool :=
+  let m := handler i in   (* in_finding i, with the model's outcome computed once *)
+  let inf := negb (pair_eqb (hdr_pair m) (hdr_pair (handler (strip_meta i)))) in
+  (input_wf i && render_eqb (render_of_config (i_impl i) output backends acc) (i_render i) &&
+   Bool.eqb flagged inf && outcome_eqb m obs &&
+   (* the writer-operation model of the same handler agrees as well *)
+   outcome_eqb (handler_ops i) obs, spec_out_b i obs).
 
 Definition check_case (c : case) : bool * bool :=
   match c with
-  | CCase flagged output backends acc i obs =>
-      let m := handler i in   (* in_finding i, with the model's outcome computed once *)
-      let inf := negb (pair_eqb (hdr_pair m) (hdr_pair (handler (strip_meta i)))) in
-      (input_wf i && render_eqb (render_of_config (i_impl i) output backends acc) (i_render i) &&
-       Bool.eqb flagged inf && outcome_eqb m obs &&
-       (* the writer-operation model of the same handler agrees as well *)
-       outcome_eqb (handler_ops i) obs, spec_out_b i obs)
+  | CCase flagged output backends acc i obs => check_main flagged output backends acc i obs
+  | CVersion build hide flagged output backends acc i obs =>
+      let '(a, b) := check_main flagged output backends acc i obs in
+      (str_eqb (i_ver i) (version_value build hide) && a, b)
   end.
 
 Lemma check_case_in_finding flagged output backends acc i obs :
